@@ -593,3 +593,86 @@ fn c20_to_iso8601() {
         }
     }
 }
+
+// ------------------------------------------------------------------------------------------
+// C20: datetime_to_array - the field mapping jaq applies to what jiff's accessors return
+// ------------------------------------------------------------------------------------------
+/// ghost: (year, month, day, hour, minute, second, subsec_nanosecond, weekday from Sunday, day of year)
+static mut GHOST_FIELDS: (i16, i8, i8, i8, i8, i8, i32, i8, i16) = (0, 0, 0, 0, 0, 0, 0, 0, 0);
+fn dt_year(_d: jiff::civil::DateTime) -> i16 {
+    unsafe { GHOST_FIELDS.0 }
+}
+fn dt_month(_d: jiff::civil::DateTime) -> i8 {
+    unsafe { GHOST_FIELDS.1 }
+}
+fn dt_day(_d: jiff::civil::DateTime) -> i8 {
+    unsafe { GHOST_FIELDS.2 }
+}
+fn dt_hour(_d: jiff::civil::DateTime) -> i8 {
+    unsafe { GHOST_FIELDS.3 }
+}
+fn dt_minute(_d: jiff::civil::DateTime) -> i8 {
+    unsafe { GHOST_FIELDS.4 }
+}
+fn dt_second(_d: jiff::civil::DateTime) -> i8 {
+    unsafe { GHOST_FIELDS.5 }
+}
+fn dt_subsec(_d: jiff::civil::DateTime) -> i32 {
+    unsafe { GHOST_FIELDS.6 }
+}
+fn dt_weekday(_d: jiff::civil::DateTime) -> jiff::civil::Weekday {
+    use jiff::civil::Weekday::*;
+    match unsafe { GHOST_FIELDS.7 } {
+        0 => Sunday,
+        1 => Monday,
+        2 => Tuesday,
+        3 => Wednesday,
+        4 => Thursday,
+        5 => Friday,
+        _ => Saturday,
+    }
+}
+fn dt_doy(_d: jiff::civil::DateTime) -> i16 {
+    unsafe { GHOST_FIELDS.8 }
+}
+
+/// `datetime_to_array` yields `[year, month from 0, day, hours, minutes, seconds, weekday from
+/// Sunday, day of year from 0]` of whatever jiff reports, with seconds an integer when the
+/// sub-second part is zero and `second + nanoseconds / 10^9` otherwise (jiff's accessors are
+/// replaced by ghost values over their documented ranges).
+#[kani::proof]
+#[kani::solver(cvc5)]
+#[kani::unwind(10)]
+#[kani::stub(jiff::civil::DateTime::year, dt_year)]
+#[kani::stub(jiff::civil::DateTime::month, dt_month)]
+#[kani::stub(jiff::civil::DateTime::day, dt_day)]
+#[kani::stub(jiff::civil::DateTime::hour, dt_hour)]
+#[kani::stub(jiff::civil::DateTime::minute, dt_minute)]
+#[kani::stub(jiff::civil::DateTime::second, dt_second)]
+#[kani::stub(jiff::civil::DateTime::subsec_nanosecond, dt_subsec)]
+#[kani::stub(jiff::civil::DateTime::weekday, dt_weekday)]
+#[kani::stub(jiff::civil::DateTime::day_of_year, dt_doy)]
+fn c20_datetime_to_array() {
+    let g: (i16, i8, i8, i8, i8, i8, i32, i8, i16) = kani::any();
+    // documented ranges of the jiff accessors
+    kani::assume(1 <= g.1 && g.1 <= 12 && 1 <= g.2 && g.2 <= 31 && 0 <= g.3 && g.3 <= 23);
+    kani::assume(0 <= g.4 && g.4 <= 59 && 0 <= g.5 && g.5 <= 59 && 0 <= g.6 && g.6 <= 999_999_999);
+    kani::assume(0 <= g.7 && g.7 <= 6 && 1 <= g.8 && g.8 <= 366);
+    kani::cover!(g.6 > 0 && g.6 < 1000);
+    kani::cover!(g.6 == 0 && g.1 == 12);
+    unsafe { GHOST_FIELDS = g };
+    let out = crate::time::verif_datetime_to_array::<AnyVal>(jiff::civil::DateTime::constant(2000, 1, 1, 0, 0, 0, 0));
+    let is_int = |v: &AnyVal, x: i128| v.made_from == 2 && v.int.map(|i| i as i128) == Some(x);
+    assert!(is_int(&out[0], g.0 as i128));
+    assert!(is_int(&out[1], g.1 as i128 - 1));
+    assert!(is_int(&out[2], g.2 as i128));
+    assert!(is_int(&out[3], g.3 as i128));
+    assert!(is_int(&out[4], g.4 as i128));
+    if g.6 > 0 {
+        assert!(out[5].made_from == 4 && same_float(out[5].flt.unwrap(), g.5 as f64 + g.6 as f64 / 1e9));
+    } else {
+        assert!(is_int(&out[5], g.5 as i128));
+    }
+    assert!(is_int(&out[6], g.7 as i128));
+    assert!(is_int(&out[7], g.8 as i128 - 1));
+}
